@@ -23,6 +23,7 @@ class HShape2(fm.TimeComponent):
         self.idx, self.k, self.events = idx, k, events
         self.ports = k["ports"]
         self._time = day(k["off"])
+        self.life, self.upd = [], None      # call history; upd = shared list of update records (run_full)
 
     def _next_time(self):
         return self.time + (day(1) - day(0))
@@ -31,6 +32,7 @@ class HShape2(fm.TimeComponent):
         return fm.Info(time=None if static else self.time, grid=fm.NoGrid(), units="m")
 
     def _initialize(self):
+        self.life.append("I")
         in_rules, out_rules, pulls = {}, {}, []
         for p, pt in enumerate(self.ports, start=1):
             st = bool(pt.get("st"))
@@ -57,6 +59,7 @@ class HShape2(fm.TimeComponent):
         return (not pt["hasin"]) or con.in_infos[f"In{p}"] is not None
 
     def _connect(self, start_time):
+        self.life.append("C")
         push = {}
         for p, pt in enumerate(self.ports, start=1):
             if pt["hasout"] and not self.connector.data_pushed[f"Out{p}"] and self._cond(p, pt):
@@ -64,13 +67,33 @@ class HShape2(fm.TimeComponent):
         self.try_connect(start_time, push_data=push)
 
     def _validate(self):
-        pass
+        self.life.append("V")
 
     def _update(self):
-        self._time = self._next_time()
+        self.life.append("U")
+        new = self._next_time()
+        if self.upd is None:
+            self._time = new
+            return
+        rec = {"c": self.idx, "t": ticks(new), "toks": [], "err": ""}
+        self.upd.append(rec)
+        try:
+            for p, pt in enumerate(self.ports, start=1):
+                tok = -1
+                if pt["hasin"]:
+                    d = self.inputs[f"In{p}"].pull_data(new)
+                    tok = int(round(float(np.asarray(fm.data.get_magnitude(d)).flat[0])))
+                rec["toks"].append(tok)
+            self._time = new
+            for p, pt in enumerate(self.ports, start=1):
+                if pt["hasout"] and not pt.get("st"):
+                    self.outputs[f"Out{p}"].push_data(float(1000 * self.idx + 100 * p + ticks(new)), new)
+        except Exception as e:  # pylint: disable=broad-except
+            rec["err"] = type(e).__name__
+            raise
 
     def _finalize(self):
-        pass
+        self.life.append("F")
 
     def record(self):
         con = self.connector
@@ -93,6 +116,13 @@ class HShape2(fm.TimeComponent):
                             "pubs": pubs, "pvals": pvals, "toks": toks})
 
 
+def _link(out, inp, pt):
+    if pt.get("dly"):
+        out >> fm.adapters.DelayFixed(delay=pt["dly"] * (day(1) - day(0))) >> inp  # pylint: disable=expression-not-assigned
+    else:
+        out >> inp  # pylint: disable=pointless-statement
+
+
 def run_case(cfg):
     events = []
     comps = [HShape2(i, k, events) for i, k in enumerate(cfg["comps"], start=1)]
@@ -104,7 +134,7 @@ def run_case(cfg):
         for c in comps:
             for p, pt in enumerate(c.ports, start=1):
                 if pt["hasin"]:
-                    comps[pt["src"] - 1].outputs[f"Out{pt['sport']}"] >> c.inputs[f"In{p}"]  # pylint: disable=expression-not-assigned
+                    _link(comps[pt["src"] - 1].outputs[f"Out{pt['sport']}"], c.inputs[f"In{p}"], pt)
             orig = c.connect
 
             def connect(start_time, c=c, orig=orig):
@@ -127,3 +157,30 @@ def run_case(cfg):
     finally:
         shutil.rmtree(memdir, ignore_errors=True)
     return {"case": cfg, "cfg": cfg, "ev": events, "end": end}
+
+
+def run_full(cfg):
+    """connect() and run(end) of a multi-port shape: call histories, every update with what it pulled."""
+    upd = []
+    comps = [HShape2(i, k, []) for i, k in enumerate(cfg["comps"], start=1)]
+    for c in comps:
+        c.upd = upd
+    memdir = tempfile.mkdtemp(prefix="fv-mem-")
+    end = {"out": "ok", "times": [], "status": []}
+    E = cfg.get("E", 3)
+    try:
+        composition = fm.Composition([comps[i - 1] for i in cfg["order"]], print_log=False,
+                                     slot_memory_location=memdir)
+        for c in comps:
+            for p, pt in enumerate(c.ports, start=1):
+                if pt["hasin"]:
+                    _link(comps[pt["src"] - 1].outputs[f"Out{pt['sport']}"], c.inputs[f"In{p}"], pt)
+        try:
+            composition.run(start_time=day(0), end_time=day(E))
+        except Exception as e:  # pylint: disable=broad-except
+            end["out"] = "err:" + type(e).__name__
+        end["times"] = [ticks(c.time) for c in comps]
+        end["status"] = [str(c.status).rsplit(".", 1)[-1] for c in comps]
+    finally:
+        shutil.rmtree(memdir, ignore_errors=True)
+    return {"case": cfg, "cfg": cfg, "E": E, "life": [c.life for c in comps], "upd": upd, "end": end}
